@@ -237,7 +237,7 @@ mksection .text
 
         lea     %%SRC, [%%SRC + %%REG_OFF + 48 + %%IMM_OFF]
         lea     %%DST, [%%DST + %%REG_OFF + 48 + %%IMM_OFF]
-        sub     %%LEN, (48 + %%IMM_OFF)
+        sub     %%LEN, 48
         simd_load_sse_15_1 %%PT3, %%SRC, %%LEN
 
         ; XOR KS with plaintext and store resulting ciphertext
@@ -264,7 +264,7 @@ mksection .text
 
         lea     %%SRC, [%%SRC + %%REG_OFF + 32 + %%IMM_OFF]
         lea     %%DST, [%%DST + %%REG_OFF + 32 + %%IMM_OFF]
-        sub     %%LEN, (32 + %%IMM_OFF)
+        sub     %%LEN, 32
         simd_load_sse_16_1 %%PT2, %%SRC, %%LEN
 
         ; XOR KS with plaintext and store resulting ciphertext
@@ -287,7 +287,7 @@ mksection .text
 
         lea     %%SRC, [%%SRC + %%REG_OFF + 16 + %%IMM_OFF]
         lea     %%DST, [%%DST + %%REG_OFF + 16 + %%IMM_OFF]
-        sub     %%LEN, (16 + %%IMM_OFF)
+        sub     %%LEN, 16
         simd_load_sse_16_1 %%PT1, %%SRC, %%LEN
 
         ; XOR KS with plaintext and store resulting ciphertext
